@@ -30,13 +30,14 @@ PROP = {
                   "lists exactly the deployed names once each in every reachable state, add followed by remove of the same "
                   "name in one transaction commits with nothing deployed, a transaction aborts only at one of its operations "
                   "(never at commit).  Tied to /repo by the `contracts` "
-                  "stream: histories of add/update/tryUpdate/remove/get/borrow/names over 3 accounts x 3 names with 10 sources "
+                  "stream: histories of add/update/tryUpdate/remove/get/borrow/names over 3 accounts x 3 names with 16 sources "
                   "(valid, compatible, incompatible, ill-typed, wrongly named, with enum, interface, unparsable, failing "
-                  "initializer, field removed) as Cadence transactions on the real runtime with persistent ledger and code "
+                  "initializer, field removed, an enum before / between / after other nested declarations — struct, resource, event, "
+                  "struct interface —, nested declarations without an enum) as Cadence transactions on the real runtime with persistent ledger and code "
                   "store, interpreter and VM; every log line and outcome class compared with the machine.",
     "level_note": "proof (spec machine) + CC: theorems are about the machine (the specification); that the Go implementation "
                   "refines it is shown by refinement testing only.  Validity / declared name / enums / interface / failing "
-                  "initializer / update compatibility of the 10 sources are input bits computed by the real parser, checker "
+                  "initializer / update compatibility of the 16 sources are input bits computed by the real parser, checker "
                   "and validator on every run (Exec rejects stale bits).  borrow is observed only in transactions that do not "
                   "change contracts before it (per-transaction program caching is not modelled).  Fixed defect 2936d79: add + remove "
                   "of the same contract in one transaction failed with an internal error (now add_remove_same_tx).",
